@@ -34,6 +34,7 @@ class Opts:
         self.filterblocks = True
         self.setblocks = True
         self.setblockfilters = True
+        self.specialargs = True
         self.namespaces = True
         self.loopcontrols = True
         self.recursive = True
@@ -297,7 +298,15 @@ class SGen:
                 callit = ["if", [[["test", N("caller"), "defined", [], False], [callit]]], None]
             body.insert(r.randint(0, len(body)), callit)
             self.feat.add("caller")
-        st["macros"].append((name, [p for p, _ in params], uses_caller, bool(uses_caller and arg)))
+        extra = False
+        if self.o.specialargs and r.random() < 0.2:
+            # the body reads BOTH implicit names: extra positional and keyword arguments
+            extra = True
+            self.feat.add("varargs_and_kwargs")
+            body.append(["out", ["filter", N("varargs"), "join", [C(",")], []]])
+            body.append(["text", "/"])
+            body.append(["out", ["filter", ["filter", N("kwargs"), "list", [], []], "join", [C(",")], []]])
+        st["macros"].append((name, [p for p, _ in params], uses_caller, bool(uses_caller and arg), extra))
         self.feat.add("macro")
         return [["macro", name, params, body]]
 
@@ -313,8 +322,12 @@ class SGen:
 
     def call_stmt(self, st):
         r = self.r
-        name, pnames, uses_caller, caller_arg = self.pick(st["macros"])
+        name, pnames, uses_caller, caller_arg, extra = self.pick(st["macros"])
         args, kw = self.call_args(st, pnames)
+        if extra:
+            if len(args) == len(pnames):
+                args += [self.int_expr(st) for _ in range(r.randint(0, 2))]
+            kw += [[k, C(r.randint(0, 9))] for k in r.sample(["zk", "yk"], r.randint(0, 2))]
         call = ["call", N(name), args, kw]
         self.feat.add("macrocall")
         if uses_caller and self.o.callblocks and r.random() < 0.7:
